@@ -421,7 +421,7 @@ pub fn run(thorough: bool, seed: u64, driver: &str, rep: &mut Report) {
                 let size = if i % 4 == 0 { rng.range(2, 7) } else { rng.range(3, 40) };
                 let mut t = random_shape(&mut rng, size);
                 let mode = *rng.pick(&[LenMode::All, LenMode::All, LenMode::Mixed, LenMode::None]);
-                let rl = rng.chance(1, 3); label(&mut rng, &mut t, &LabelOpts { len_mode: mode, comments_pct: 10, root_len: rl, ..Default::default() });
+                let rl = rng.chance(1, 3); label(&mut rng, &mut t, &LabelOpts { len_mode: mode, comments_pct: 10, root_len: rl, ..Default::default() }); if odd_labels(&mut rng, &mut t) { rep.count("trees_with_odd_labels"); }
                 let how = *rng.pick(&["api", "bfs", "tomb", "tomb2", "parse", "merge2", "grown", "bottomup"]);
                 if how == "merge2" {
                     while t.kids.len() > 2 {
